@@ -8,7 +8,7 @@ From Dashu Require Import Base.Prelude Base.Words Int.ModRingSpec Int.ModRingSpe
   Int.ModRingConv Int.ModRingConvProofs Int.ModRingWordsSrc Int.ModRingConvInst Int.ModRingConvInstProofs Int.ModRingGenProofs
   Int.GrlModel Int.ModRingGcdSmall
   Int.GrlLehmer Int.ModRingLehmer Int.ModRingLehmerGuess Int.ModRingLehmerProofs Int.ModRingLehmerInst Int.ModRingLehmerSrc
-  Int.RingAdd Int.ModRingReducerWords Int.ModRingReducerWordsProofs.
+  Int.RingAdd Int.ModRingReducerWords Int.ModRingReducerWordsProofs Int.ModRingClone Int.ModRingCloneProofs.
 From DashuGen Require Import ModRingGen.
 Open Scope Z_scope.
 
@@ -793,3 +793,12 @@ Theorem C13_hrun_rd_lin : forall o m a b, 1 <= m -> 0 <= a -> 0 <= b -> (o = RAd
   hrun_rd_lin o m a b = rbind (run_rd true o m a b) (fun t => Ok (snd t)).
 Proof. exact hrun_rd_lin_correct. Qed.
 Print Assumptions C13_hrun_rd_lin.
+
+(** ---------------- Clone for Reduced ---------------- *)
+(** x = r1.reduce(a); y = r2.reduce(b) in another ConstDivisor instance (any modulus, any representation / word count /
+    shift); y.clone_from(&x) (or y = x.clone()): y.modulus() = m1, y.residue() = a mod m1, y == x holds (no DifferentRings
+    panic) and y + r1.reduce(c) is (a + c) mod m1 *)
+Theorem C13_clone_from : forall m1 m2 a b c, 1 <= m1 -> 1 <= m2 ->
+  run_clone_from m1 m2 a b c = Ok (m1, reduce_spec m1 a, true, reduce_spec m1 (a + c)).
+Proof. exact run_clone_from_correct. Qed.
+Print Assumptions C13_clone_from.
